@@ -129,3 +129,32 @@ def duties(problem, idxs):
         else:
             cold += abs(st[2])
     return hot, cold
+
+
+def cold_default_decision_sign_defect(problem: dict, dt_phase: float = 0.1) -> bool:
+    """Cause predicate of a recorded finding (computed from the INPUT only).
+
+    Data preparation decides that no default cold utility is needed when some active cold-capable utility satisfies
+    max(t_supply, t_target) - dt_cont <= T*, T* = lowest shifted hot temperature.  A cold utility is shifted UP by its
+    contribution, so the right criterion is  + dt_cont.  True iff the shipped criterion accepts the supplied utilities but
+    the right one rejects all of them (then no default is added although the supplied levels cannot reach T*)."""
+    hot = []
+    for s in problem["streams"]:
+        ts, tt, q, dt = st_of(s)
+        if ts > tt or (ts == tt and q < 0):
+            lo = min(ts, tt) if ts != tt else ts - 0.01
+            hot.append(lo - dt)
+    if not hot:
+        return False
+    tstar = min(hot)
+    shipped = right = False
+    for u in problem.get("utilities") or []:
+        if not u.get("active", True) or u["type"] not in ("Cold", "Both"):
+            continue
+        ts, tt, dt = u["t_supply"], u["t_target"], u["dt_cont"]
+        if tt == ts:
+            tt = ts + dt_phase if u["type"] == "Cold" else ts - dt_phase
+        hi = max(ts, tt)
+        shipped = shipped or (hi - dt <= tstar)
+        right = right or (hi + dt <= tstar + 1e-12)
+    return shipped and not right
